@@ -135,6 +135,7 @@ type Config struct {
 	CG        *callgraph.Graph
 	Roots     []Root
 	Enter     func(fn *ssa.Function) bool // analyse the body of fn?
+	SkipEdge  func(site ssa.CallInstruction, callee *ssa.Function) bool // ignore this call-graph edge (handled by ExtInvoke)
 	ExtInvoke func(a *Analysis, ctx Ctx, site ssa.CallInstruction, fn *ssa.Function, recv *Obj, method string) bool
 }
 
